@@ -1,8 +1,8 @@
 (* C06 — invalid use yields a truthful documented Error; valid use never fails. *)
 From Coq Require Import NArith Bool List.
-From RS.Gen Require Import Prelude GenConsts GenRate.
+From RS.Gen Require Import Prelude GenConsts GenRate GenGuards.
 From RS.Model Require Import Field Sched Codec Machine Admissible Spec.
-From RS.Proofs Require Import RateFacts MachineFacts StepAll.
+From RS.Proofs Require Import RateFacts MachineFacts GuardFacts StepAll.
 Import ListNotations.
 Local Open Scope N_scope.
 
@@ -53,3 +53,27 @@ Example C06_example :
   snd (step (fun _ _ _ => 0) s (DAddO 7 [1; 2; 3])) = RError (InvalidOriginalShardIndex 3 7) /\
   snd (step (fun _ _ _ => 0) s (DAddO 18446744073709551615 [])) = RError (InvalidOriginalShardIndex 3 18446744073709551615).
 Proof. vm_compute. repeat split. Qed.
+
+(* ---- the error decisions of the model are the ones of the current Rust text: rs2v regenerates the
+   decision trees of EncoderWork::add_original_shard / encode_begin and DecoderWork::add_original_shard /
+   add_recovery_shard / decode_begin (Gen/GenGuards.v: conditions in source order, error variants with
+   their field values) on every run; the model's functions take exactly those decisions ---- *)
+Theorem C06_guards_enc : forall junk ep x s probes,
+  gen_enc_add (ew_K (e_work x)) (ew_recv (e_work x)) (ew_sb (e_work x)) (blen s) =
+    match enc_add x s with inr e => GErr e | inl _ => GOk 0 end /\
+  gen_enc_begin (ew_K (e_work x)) (ew_recv (e_work x)) =
+    match snd (enc_encode junk ep x probes) with RError e => GErr e | _ => GOk 0 end.
+Proof. intros; split; [apply enc_add_guard|apply enc_begin_guard]. Qed.
+Print Assumptions C06_guards_enc.
+Theorem C06_guards_dec : forall junk ep x i s probes,
+  gen_dec_add_original (dw_obase (d_work x)) (dw_K (d_work x)) (dw_sb (d_work x)) i (blen s) (pmem (dw_received (d_work x))) =
+    match dec_add_original x i s with inr e => GErr e | inl _ => GOk 0 end /\
+  gen_dec_add_recovery (dw_rbase (d_work x)) (dw_R (d_work x)) (dw_sb (d_work x)) i (blen s) (pmem (dw_received (d_work x))) =
+    match dec_add_recovery x i s with inr e => GErr e | inl _ => GOk 0 end /\
+  match gen_dec_begin (dw_K (d_work x)) (dw_orecv (d_work x)) (dw_rrecv (d_work x)) with
+  | GErr e => snd (dec_decode junk ep x probes) = RError e
+  | GOk 0 => dw_orecv (d_work x) = dw_K (d_work x) /\ exists pr, snd (dec_decode junk ep x probes) = RDec [] pr
+  | GOk _ => dw_orecv (d_work x) <> dw_K (d_work x) /\ exists it pr, snd (dec_decode junk ep x probes) = RDec it pr
+  end.
+Proof. intros; split; [apply dec_add_original_guard|split; [apply dec_add_recovery_guard|apply dec_begin_guard]]. Qed.
+Print Assumptions C06_guards_dec.
